@@ -73,8 +73,16 @@ def run(rep: core.Report):
     if qvec is None or dirvec is None:
         raise AnalysisError(f"R08a: cannot identify the Cartesian q ({qvec}) / the Cartesian direction ({dirvec}) of get_dynmat_want")
 
+    def _vec_of(node, env):
+        n_ = cast.ref_name(node)
+        hops = 0
+        while n_ in env and hops < 8 and n_ not in (qvec, dirvec):
+            n_ = cast.ref_name(env[n_])
+            hops += 1
+        return n_
+
     def classify(atom, truth, env):
-        """('small'|'dir', value) of an atomic condition"""
+        """('small'|'dir'|'const', value) of an atomic condition"""
         a0 = cast.strip(atom)
         if cast.ref_name(a0) == "q_direction":
             return "dir", truth
@@ -100,15 +108,15 @@ def run(rep: core.Report):
                     raise AnalysisError(f"R08a: the length compared with q_zero_tolerance is computed from {sorted(leaves)}, not from the Cartesian q-point '{qvec}'")
                 below = (a0.get("opcode") in ("<", "<=")) == (rn == "q_zero_tolerance")
                 return "small", truth == below
+        if a0.get("kind") == "BinaryOperator" and a0.get("opcode") in ("==", "!="):
+            # identity of two vectors (q_nac == q_cart with q_nac chosen earlier on this path): decided by the path
+            l_, r_ = cast.kids(a0)
+            lv, rv = _vec_of(l_, env), _vec_of(r_, env)
+            if lv in (qvec, dirvec) and rv in (qvec, dirvec):
+                return "const", truth == ((lv == rv) == (a0.get("opcode") == "=="))
         raise AnalysisError(f"R08a: unclassified condition '{cast.text(atom)}' in get_dynmat_want")
 
-    def vec_of(node, env):
-        n_ = cast.ref_name(node)
-        hops = 0
-        while n_ in env and hops < 8 and n_ not in (qvec, dirvec):
-            n_ = cast.ref_name(env[n_])
-            hops += 1
-        return n_
+    vec_of = _vec_of
 
     outcomes = {}  # (small, dir) -> set of (vector | None)
     configs = {}  # vector name -> (call node, factor args node, env)
@@ -118,6 +126,11 @@ def run(rep: core.Report):
         for ev in pth:
             if ev[0] == "cond":
                 k_, v_ = classify(ev[1], ev[2], env)
+                if k_ == "const":
+                    if not v_:  # the path assumes an outcome that the earlier choices exclude
+                        facts = None
+                        break
+                    continue
                 if facts.get(k_, v_) != v_:
                     facts = None
                     break
